@@ -137,7 +137,7 @@ impl NativeEnv {
             match child.try_wait() {
                 Ok(Some(_)) => break,
                 Ok(None) => {
-                    if start.elapsed().as_secs() > 10 {
+                    if start.elapsed().as_secs() > 60 {
                         let _ = child.kill();
                         let _ = child.wait();
                         return Ok(NativeRun { stdout: vec![], status: None, signal: Some(-1) });
